@@ -118,7 +118,7 @@ def _merge(dst, src):
         dst[k] = dst.get(k, 0) + v
 
 
-def determinism_selftest(check, batches, base_seed, ctx, n=6):
+def determinism_selftest(check, batches, base_seed, ctx, n=6, tier="quick"):
     """Run the first n indices of the first batch twice in-process-tree and once in
     a fresh interpreter under another PYTHONHASHSEED; digests must agree."""
     b = batches[0]
@@ -139,6 +139,7 @@ def determinism_selftest(check, batches, base_seed, ctx, n=6):
         env["PYTHONHASHSEED"] = "12345"
         env["VERIF_NO_REEXEC"] = "1"
         env["VERIF_SEED"] = str(base_seed)
+        env["VERIF_TIER"] = tier            # (checks that prepare per-tier state, e.g. C11's program set)
         cmd = [sys.executable, os.path.join(VERIF, "run_check.py"), check.PROP, "--digests",
                b["name"], ",".join(map(str, idx[:3]))]
         p = subprocess.run(cmd, env=env, capture_output=True, text=True, timeout=600, cwd=VERIF)
@@ -161,7 +162,7 @@ def determinism_selftest(check, batches, base_seed, ctx, n=6):
 
 
 def print_digests(check, batch_name, indices, base_seed):
-    ctx = check.prepare("quick", base_seed) if hasattr(check, "prepare") else None
+    ctx = check.prepare(os.environ.get("VERIF_TIER", "quick"), base_seed) if hasattr(check, "prepare") else None
     try:
         fn = make_runner(check, batch_name, base_seed, ctx)
         out = {}
@@ -256,7 +257,7 @@ def main(check, tier, base_seed):
         workers = int(os.environ.get("VERIF_WORKERS", "16"))
 
         selftest = determinism_selftest(check, batches, base_seed, ctx,
-                                        n=6 if tier == "quick" else 16)
+                                        n=6 if tier == "quick" else 16, tier=tier)
         if selftest["mismatches"]:
             if getattr(check, "NONDETERMINISM_IS_VIOLATION", False):
                 # for a property that says "same inputs => same bytes", two executions of one seed that differ
